@@ -6,7 +6,7 @@ import "github.com/miekg/dns"
 
 // vrtQueryC04 builds an arbitrary query message: name of symbolic content and
 // forked length 1..maxName, any type, any class, AD/CD, optional OPT with any
-// ttl field (DO bit), QR, opcode, 0..2 questions.
+// ttl field (DO bit) alone or next to another additional record, QR, opcode, 0..2 questions.
 func vrtQueryC04(maxName int) (*dns.Msg, int) {
 	q := new(dns.Msg)
 	q.Id = vrtU16()
@@ -25,7 +25,16 @@ func vrtQueryC04(maxName int) (*dns.Msg, int) {
 		o.Hdr.Rrtype = dns.TypeOPT
 		o.Hdr.Class = vrtU16()
 		o.Hdr.Ttl = vrtU32()
-		q.Extra = append(q.Extra, o)
+		// the OPT record alone, after another additional record, or followed by one (e.g. TSIG, which must come last)
+		other := &dns.A{Hdr: dns.RR_Header{Name: "x.", Rrtype: dns.TypeA, Class: dns.ClassINET, Ttl: vrtU32()}, A: []byte{192, 0, 2, 1}}
+		switch vrtChoice(3) {
+		case 0:
+			q.Extra = append(q.Extra, o)
+		case 1:
+			q.Extra = append(q.Extra, other, o)
+		default:
+			q.Extra = append(q.Extra, o, other)
+		}
 	}
 	return q, nq
 }
